@@ -32,7 +32,7 @@ fn call(c: &mut Case, e: Entry, s: &[u8]) -> Option<Result<Vec<u8>, String>> {
     // exact-size private copy at a (usually) odd address (see monitor::Tight)
     let tight_copy = crate::monitor::tight(s);
     let s: &[u8] = &tight_copy;
-    c.lib(e.name(), || match e {
+    c.lib_stable(e.name(), || match e {
         Entry::Lz10 => LZ10CompressionFormat {}.decompress(s).map_err(|x| x.to_string()),
         Entry::Lz13 => LZ13CompressionFormat {}.decompress(s).map_err(|x| x.to_string()),
         Entry::CfLz10 => CompressionFormat::LZ10(LZ10CompressionFormat {}).decompress(s).map_err(|x| x.to_string()),
